@@ -653,7 +653,18 @@ func c17Probe[K cmp.Ordered](r *c17Run[K], rd *pdf.Reader, rootObj pdf.Object, k
 		// enumeration: ascending, complete, right values
 		i := 0
 		bad := false
-		for k, v := range x.t.All() {
+		seq := x.t.All()
+		if n > 0 && c.Rng.Bool() {
+			// a pass over the sequence that is abandoned early
+			stop := c.Rng.Intn(n)
+			for range seq {
+				if stop == 0 {
+					break
+				}
+				stop--
+			}
+		}
+		for k, v := range seq {
 			if i >= n {
 				r.fail("enumerate/"+x.name+"/extra", "%s All() yields more than %d entries: %s", x.name, n, kd.show(k))
 				bad = true
@@ -675,6 +686,18 @@ func c17Probe[K cmp.Ordered](r *c17Run[K], rd *pdf.Reader, rootObj pdf.Object, k
 			r.fail("enumerate/"+x.name+"/incomplete", "%s All() yields %d of %d entries", x.name, i, n)
 		}
 		c.R.Count("entries_enumerated", int64(i))
+		if !bad && i == n {
+			// the sequence All() returned can be ranged over again (iterators
+			// are restartable unless documented otherwise)
+			again := 0
+			for range seq {
+				again++
+			}
+			if again != n {
+				r.fail("enumerate/"+x.name+"/second-pass", "%s: a second pass over the sequence returned by one All() call yields %d of %d entries", x.name, again, n)
+			}
+			c.R.Count("sequences_ranged_over_twice", 1)
+		}
 	}
 	if sz, err := kd.size(rd, rootObj); err != nil || sz != n {
 		r.fail("size", "Size = %d, %v; the map has %d entries", sz, err, n)
